@@ -1,0 +1,1 @@
+//! Verification hooks (exec); see `verif/mod.rs`.
